@@ -8,6 +8,8 @@ the PYTHONHASHSEED comparison) and prints one JSON line ``C11RESULT <json>``.
 
 from __future__ import annotations
 
+import copy
+
 import contextlib
 import hashlib
 import io
@@ -33,7 +35,10 @@ MODELS = {
 COHORT = ["a", "b", "c", "d", "e"]
 
 N_ITER = 6
-FIT_SAMPLERS = {"fit_gibbs": "Gibbs", "fit_fastgibbs": "FastGibbs", "fit_mh": "Metropolis-Hastings"}
+# "fit_annealing": the Gibbs fit with simulated annealing switched on (2 plateaus over the first half of the iterations):
+# the temperature schedule is part of what a run does, so it must not depend on the logging options either
+FIT_SAMPLERS = {"fit_gibbs": "Gibbs", "fit_fastgibbs": "FastGibbs", "fit_mh": "Metropolis-Hastings", "fit_annealing": "Gibbs"}
+FIT_EXTRA = {"fit_annealing": dict(annealing={"do_annealing": True, "initial_temperature": 4.0, "n_plateau": 2, "n_iter_frac": 0.5})}
 PERSONALIZE = {"pers_scipy": "scipy_minimize", "pers_mode": "mode_posterior", "pers_mean": "mean_posterior"}
 ALGOS = list(FIT_SAMPLERS) + list(PERSONALIZE) + ["simulate"]
 
@@ -219,7 +224,8 @@ def algo_kwargs(algo, seed):
         return "mcmc_saem", dict(seed=seed, n_iter=N_ITER, progress_bar=False, sampler_pop=FIT_SAMPLERS[algo],
                                  n_burn_in_iter_frac=0.5,
                                  sampler_pop_params={"acceptation_history_length": 4},
-                                 sampler_ind_params={"acceptation_history_length": 4})
+                                 sampler_ind_params={"acceptation_history_length": 4},
+                                 **copy.deepcopy(FIT_EXTRA.get(algo, {})))
     if algo == "pers_scipy":
         return "scipy_minimize", dict(seed=seed, progress_bar=False)
     if algo in PERSONALIZE:
